@@ -370,10 +370,17 @@ func (e *Env) selIdx(tv TV, i int) TV {
 }
 
 func (e *Env) index(tv TV, idx Expr) TV {
+	if tv.T == nil {
+		if t, ok := tv.V.(Term); ok && strings.HasPrefix(t.Sort, "(Array") {
+			return TV{Sel(t, e.intTerm(idx)), nil}
+		}
+		sfail("index on untyped value")
+	}
 	if kt, vt, ok := mapKV(tv.T); ok {
 		m := e.toTerm(tv)
 		k := e.intTerm(idx)
 		v := Sel(e.st.mapVal(m, kt, vt), k)
+		e.st.assumeLoaded(v, vt)
 		return TV{v, vt}
 	}
 	if st, ok := under(tv.T).(*types.Slice); ok {
@@ -587,6 +594,12 @@ func (e *Env) call(c *ECall) TV {
 		key := exprKey(c.Args[0])
 		now := st.comp("N!"+sanitize(key), SI)
 		old := e.oldComp("N!"+sanitize(key), SI)
+		return TV{Sub(now, old), nil}
+	case "dcalls":
+		// calls made directly by this function (not through callees or the environment)
+		key := exprKey(c.Args[0])
+		now := st.comp("D!"+sanitize(key), SI)
+		old := e.oldComp("D!"+sanitize(key), SI)
 		return TV{Sub(now, old), nil}
 	case "ncalls":
 		key := exprKey(c.Args[0])
